@@ -158,6 +158,25 @@ func (m *metadata) releaseRootSeqNos(version uint64, seqs map[uint8]uint16) {
 	}
 }
 
+// releasableRoots returns the pending roots that releaseRootSeqNos would release.
+func (m *metadata) releasableRoots(version uint64, seqs map[uint8]uint16) []api.TypedHash {
+	m.Lock()
+	defer m.Unlock()
+
+	var roots []api.TypedHash
+	for rootHash, rootSeqNo := range m.value.PendingRootSeqs[version] {
+		rootType := uint8(rootHash.Type())
+		seqNo, ok := seqs[rootType]
+		if next, exists := m.value.NextPendingRootSeq[version][rootType]; !ok || !exists || next != seqNo+1 {
+			continue
+		}
+		if rootSeqNo == seqNo {
+			roots = append(roots, rootHash)
+		}
+	}
+	return roots
+}
+
 func (m *metadata) setPendingRootSeqNo(version uint64, rootHash api.TypedHash, seqNo uint16) error {
 	m.Lock()
 	defer m.Unlock()
